@@ -138,6 +138,33 @@ def pdataOf (j : Json) : PData :=
   | .arr a => some (a.toList.map fun x => match x with | .str s => s | _ => "")
   | _ => none
 
+/-- executable reading of `Spec/HeapCarry.Keeps` (the writes keep field `g` of the project struct at `a0`); equality of the
+kept field is decided on the wire rendering -/
+def keepsJ (a0 g : Nat) : List (Nat × Cell) → List (Key × GoVal) → Bool
+  | [], _ => true
+  | (a, cell) :: r, ks =>
+    if a = a0 then
+      match cell with
+      | .pointee (.struct ks') =>
+        (kidOf (.fld g) ks').isSome == (kidOf (.fld g) ks).isSome &&
+        (toJson ((kidOf (.fld g) ks').getD .nil)).compress == (toJson ((kidOf (.fld g) ks).getD .nil)).compress &&
+        keepsJ a0 g r ks'
+      | _ => false
+    else !(addrs ((kidOf (.fld g) ks).getD .nil)).contains a && keepsJ a0 g r (writeKids a cell ks)
+
+/-- the fields of the copy the program's write log does not keep (`none`: the result is not "the first copy after the
+program's writes" — programs that copy more than once — so `carry_partial` does not apply to this run) -/
+def affectedFields (plan : Plan) (src : GoVal) (n : Nat) (st : St) (res : GoVal) : Option (List String) :=
+  let c0 := (exec plan src n).1
+  match c0 with
+  | .ptr a0 (.struct ks) =>
+    if (toJson (writes st.log c0)).compress == (toJson res).compress then
+      some (ks.filterMap fun kv => match kv.1 with
+        | .fld g => if keepsJ a0 g st.log ks then none else some (fieldName g)
+        | _ => none)
+    else none
+  | _ => none
+
 /-- the heap program of a derivation run on the encoded receiver: result, error class, and what the model observed
 about its own run (receiver variable unchanged, every write above the receiver's frontier) -/
 def derivOp : Handler := fun args =>
@@ -155,7 +182,10 @@ def derivOp : Handler := fun args =>
       ("err", match st.err with | some e => Json.str e | none => Json.null),
       ("recvUnchanged", Json.bool recvSame), ("confined", Json.bool confined),
       ("wellTyped", Json.bool (match res with | .nil => true | _ => hasTy ty res)), ("rf", Json.bool (rfL prog)),
-      ("writes", (st.log.length : Nat))]
+      ("writes", (st.log.length : Nat)),
+      ("affected", match affectedFields plan src n st res with
+        | some l => Json.arr (l.map Json.str).toArray
+        | none => Json.null)]
   | none, _, _ => Json.mkObj [("bad", "no Project root")]
   | _, none, _ => Json.mkObj [("bad", .str ("no program for " ++ getStr args "op"))]
   | _, _, .error e => Json.mkObj [("bad", .str e)]
